@@ -335,6 +335,18 @@ def run(ctx):
                     loc=rst.loc(nd),
                 )
                 src_attr = False
+            elif (
+                isinstance(v, ast.Call) and ast.unparse(v.func) in ("copy", "copy.copy") and len(v.args) == 1
+                and isinstance(v.args[0], ast.Attribute) and ast.unparse(v.args[0].value) == "self"
+            ):
+                chk.violation(
+                    "R12.d", rst, nd,
+                    f"reset installs a shallow copy of self.{v.args[0].attr}: the copy shares the networkx graph, the node lists "
+                    "and the removed-nodes flags with the pristine graph, so the next episode removes its nodes from the pristine "
+                    "graph too and every later episode starts from a damaged one",
+                    loc=rst.loc(nd),
+                )
+                src_attr = False
             else:
                 raise AnalysisError(f"{rst.loc(nd)}: GraphUpdater.reset source not recognised")
     if src_attr is None:
@@ -450,12 +462,26 @@ def _acquired_before_subscribe(ctx, a, site, sub, cone):
         return None, ()
 
     want_cls, want_kw = acq_class(site)
+    # the acquisition may sit in a shared helper with several returns
+    # (`if condition is None: return d.create_or_get_observer(T, **kw)` /
+    # `return d.create_or_get_observer(T, condition=condition, **kw)`): any of
+    # its acquisition calls of the same type expression is "the" acquisition
+    site_fn = None
+    for mi_ in repo.modules.values():
+        if site in mi_.parents:
+            site_fn = repo.enclosing_function(mi_, site)
+            break
 
     def same_acquisition(call):
         if call is site:
             return True
         c, kw = acq_class(call)
-        return c is not None and c == want_cls and kw == want_kw
+        if c is not None and c == want_cls and kw == want_kw:
+            return True
+        if c is not None and c == want_cls and site_fn is not None and site_fn.cls is not None and site_fn.name != "__init__":
+            fn2 = repo.enclosing_function(site_fn.module, call) if call in site_fn.module.parents else None
+            return fn2 is site_fn
+        return False
 
     def relevant(e):
         if e.kind == "raise":
@@ -578,7 +604,8 @@ def dispatcher_reset(ctx, lc, disp, rule):
         if isinstance(nd, ast.Assign):
             for t in nd.targets:
                 if isinstance(t, ast.Attribute) and ast.unparse(t.value) == "self" and t.attr in iv:
-                    a, b = norm_init(ast.unparse(iv[t.attr])), norm_init(ast.unparse(nd.value))
+                    # local aliases (`instance = self.instance`, also ones renamed apart while flattening) expanded
+                    a, b = norm_init(ctx.norm.xtext(init_f, iv[t.attr])), norm_init(ctx.norm.xtext(reset_f, nd.value))
                     n_cmp += 1
                     if a == b or (a in ("{}", "dict()") and b in ("{}", "dict()")):
                         chk.ok(rule, reset.qualname, reset_f.loc(nd), f"self.{t.attr}: reset expression equals the constructor's")
